@@ -12,7 +12,7 @@ use marwood::vm::verif::GcMode;
 use serde_json::{json, Value};
 use std::collections::HashSet;
 
-pub const KINDS: [&str; 13] = [
+pub const KINDS: [&str; 16] = [
     "pairs",
     "vectors",
     "strings",
@@ -25,6 +25,9 @@ pub const KINDS: [&str; 13] = [
     "promises",
     "eval-fresh-locals",
     "toplevel-fresh-locals",
+    "toplevel-redefine",
+    "toplevel-redefine-syntax",
+    "eval-redefine-syntax",
     "mixed",
 ];
 
@@ -43,6 +46,9 @@ fn garbage_expr(kind: &str) -> &'static str {
         // code compiled again and again whose local variable names are new each time
         "eval-fresh-locals" => "(let ((name (string->symbol (string-append \"tmp-\" (number->string i))))) (eval (list (list 'lambda (list name) (list 'cons name name)) i)))",
         "toplevel-fresh-locals" => "(cons i i)",
+        "toplevel-redefine" | "toplevel-redefine-syntax" => "(cons i i)",
+        // the same keyword defined again and again by code that is compiled each time
+        "eval-redefine-syntax" => "(begin (eval (list 'define-syntax 'swap-em (list 'syntax-rules '() (list '(_ a b) (list 'list 'b 'a i))))) (eval '(swap-em 1 2)))",
         _ => "(begin (cons i i) (make-vector 3 i) (string-append \"a\" \"b\") ((lambda (x) (lambda () x)) i) (call/cc (lambda (k) i)) (string->symbol (string-append \"m-\" (number->string i))))",
     }
 }
@@ -208,11 +214,22 @@ fn run_loop(c: &LoopCase, iterations: u64) -> Result<LoopRun, String> {
         }
     }
     let before = sim.vm.verif_state().collections;
-    if c.kind == "toplevel-forms" || c.kind == "toplevel-fresh-locals" {
+    if c.kind.starts_with("toplevel-") {
         // the garbage is the code of successive top-level evaluations
         for i in 0..iterations {
             let text = if c.kind == "toplevel-forms" {
                 format!("(cons {} {})", i, i)
+            } else if c.kind == "toplevel-redefine" {
+                // a global variable and a global procedure defined again and again
+                format!("(begin (define redef-v (list {i})) (define (redef-p x) (+ x {i})) (redef-p (car redef-v)))", i = i)
+            } else if c.kind == "toplevel-redefine-syntax" {
+                // (the use is a form of its own: a keyword is known to the expander only after the
+                // form that defines it has been evaluated)
+                let o = sim.eval_form(&format!("(define-syntax redef-m (syntax-rules () ((_ a) (list a {i}))))", i = i));
+                if !matches!(o.outcome, Outcome::Value(_)) {
+                    return Err(format!("form failed: {}", o.outcome.brief()));
+                }
+                "(redef-m 1)".to_string()
             } else {
                 format!("((lambda (loc{i} . rest{i}) (let ((in{i} loc{i})) (cons in{i} rest{i}))) {i})", i = i)
             };
